@@ -1669,6 +1669,93 @@ func E4StepProgress(c *core.Ctx, r *core.Report) {
 		}
 		fname := "canvas." + core.FuncName(fd)
 		ord := 0
+		// (b) counted loops `for i := 0; i < int(N); i++` whose bound N is a float local that derives, through
+		// locals, from a float parameter under Sqrt/Cbrt/Acos: a zero parameter makes N infinite
+		ast.Inspect(fd.Body, func(m ast.Node) bool {
+			loop, ok := m.(*ast.ForStmt)
+			if !ok || loop.Cond == nil || loop.Init == nil || loop.Post == nil {
+				return true
+			}
+			be, ok := core.Unparen(loop.Cond).(*ast.BinaryExpr)
+			if !ok || be.Op != token.LSS {
+				return true
+			}
+			var bound types.Object
+			ast.Inspect(be.Y, func(k ast.Node) bool {
+				if id, ok := k.(*ast.Ident); ok {
+					if o := core.ObjOf(info, id); o != nil {
+						if b, ok := o.Type().Underlying().(*types.Basic); ok && b.Kind() == types.Float64 && paramIndex(fd, o) < 0 {
+							bound = o
+						}
+					}
+				}
+				return true
+			})
+			if bound == nil {
+				return true
+			}
+			// transitive definitions of bound
+			deps := map[types.Object]bool{}
+			seen := map[types.Object]bool{}
+			var follow func(o types.Object)
+			follow = func(o types.Object) {
+				if seen[o] {
+					return
+				}
+				seen[o] = true
+				ast.Inspect(fd.Body, func(k ast.Node) bool {
+					as, ok := k.(*ast.AssignStmt)
+					if !ok || len(as.Lhs) != len(as.Rhs) || as.Pos() > loop.Pos() {
+						return true
+					}
+					for i, l := range as.Lhs {
+						if lid, ok := l.(*ast.Ident); ok && core.ObjOf(info, lid) == o {
+							ast.Inspect(as.Rhs[i], func(q ast.Node) bool {
+								call, isCall := q.(*ast.CallExpr)
+								if isCall && (core.IsPkgFunc(info, call, "math", "Sqrt") || core.IsPkgFunc(info, call, "math", "Cbrt") || core.IsPkgFunc(info, call, "math", "Acos")) {
+									ast.Inspect(call, func(z ast.Node) bool {
+										if zid, ok := z.(*ast.Ident); ok {
+											if zo := core.ObjOf(info, zid); zo != nil && paramIndex(fd, zo) >= 0 {
+												if b, ok := zo.Type().Underlying().(*types.Basic); ok && b.Kind() == types.Float64 {
+													deps[zo] = true
+												}
+											}
+										}
+										return true
+									})
+								}
+								if qid, ok := q.(*ast.Ident); ok {
+									if qo := core.ObjOf(info, qid); qo != nil && qo != o {
+										if _, isVar := qo.(*types.Var); isVar && paramIndex(fd, qo) < 0 && qo.Pos() > fd.Pos() && qo.Pos() < fd.End() {
+											follow(qo)
+										}
+									}
+								}
+								return true
+							})
+						}
+					}
+					return true
+				})
+			}
+			follow(bound)
+			for o := range deps {
+				// only parameters that can make the bound infinite: those that appear as a difference/ratio with a radius are
+				// not told apart here; the tolerance is the one that is clamped by its siblings
+				if !strings.Contains(strings.ToLower(o.Name()), "toler") && !strings.Contains(strings.ToLower(o.Name()), "flat") {
+					continue
+				}
+				n++
+				ord++
+				key := fmt.Sprintf("%s|counted loop #%d bounded through parameter %d, which has a positive lower bound", fname, ord, paramIndex(fd, o))
+				if ok, why := established(fd, o, loop.Pos(), 2); ok {
+					r.OK("E4.step-progress", key, c.Pos(loop.Pos()), "")
+				} else {
+					r.Fail("E4.step-progress", key, c.Pos(loop.Pos()), fmt.Sprintf("the number of iterations of this loop is computed from the parameter `%s` under a root or arc cosine and that parameter is not clamped to a positive value before: %s; a zero value makes the count infinite (converted to int: nothing, or everything)", o.Name(), why))
+				}
+			}
+			return true
+		})
 		ast.Inspect(fd.Body, func(m ast.Node) bool {
 			loop, ok := m.(*ast.ForStmt)
 			if !ok || loop.Cond == nil || loop.Init != nil || loop.Post != nil {
@@ -1982,4 +2069,366 @@ func E4WorklistBound(c *core.Ctx, r *core.Report) {
 	})
 	r.Count("E4.worklist-loops", n)
 	r.Floor("E4.worklist-loops", 1)
+}
+
+// E4ForcedBreakDeactivates: at a forced break every active node is deactivated.
+func E4ForcedBreakDeactivates(c *core.Ctx, r *core.Report) {
+	r.Rule("E4.forced-break-deactivates", "linebreaker.mainLoop: no line may span a forced break, so when the item at the candidate position is a penalty of −Infinity every active node is taken off the active list, whatever the adjustment ratio of the line that would end there. Decided over the paths of one iteration of the inner loop with `item.Type == PenaltyType` and `item.Penalty <= -Infinity` taken as true and every test of the ratio left open: each path calls Remove on the active list. A deactivation nested under a feasibility test leaves a node with a too loose line active; it then becomes the parent of a later break and the returned breaking skips the forced one")
+	p := c.MustPkg("text")
+	info := p.TypesInfo
+	fd := core.MustFuncDecl(p, "linebreaker.mainLoop")
+	r.Func("text.linebreaker.mainLoop")
+	// innermost for loop that contains a call to computeAdjustmentRatio
+	var loop *ast.ForStmt
+	ast.Inspect(fd.Body, func(m ast.Node) bool {
+		f, ok := m.(*ast.ForStmt)
+		if !ok {
+			return true
+		}
+		has := false
+		for _, st := range f.Body.List {
+			ast.Inspect(st, func(k ast.Node) bool {
+				if _, isFor := k.(*ast.ForStmt); isFor {
+					return false
+				}
+				if call, ok := k.(*ast.CallExpr); ok {
+					if cf := core.CalleeOf(info, call); cf != nil && cf.Name() == "computeAdjustmentRatio" {
+						has = true
+					}
+				}
+				return true
+			})
+		}
+		if has {
+			loop = f
+		}
+		return true
+	})
+	key := "text.linebreaker.mainLoop|every active node is removed at a forced break"
+	if loop == nil {
+		r.Fail("E4.forced-break-deactivates", key, c.Pos(fd.Pos()), "the loop over the active nodes was not found")
+		return
+	}
+	env := func(e ast.Expr) tri {
+		be, ok := e.(*ast.BinaryExpr)
+		if !ok {
+			return tUnknown
+		}
+		x, y := squash(types.ExprString(be.X)), squash(types.ExprString(be.Y))
+		isPen := func(s string) bool { return strings.HasSuffix(s, ".Penalty") }
+		isNegInf := func(s string) bool { return s == "-Infinity" }
+		switch be.Op {
+		case token.EQL, token.NEQ:
+			if (strings.HasSuffix(x, ".Type") && y == "PenaltyType") || (strings.HasSuffix(y, ".Type") && x == "PenaltyType") {
+				return triOf(be.Op == token.EQL)
+			}
+		case token.LEQ:
+			if isPen(x) && isNegInf(y) {
+				return tTrue
+			}
+			if isPen(y) { // K <= item.Penalty with K >= 0 or K == -Infinity
+				if isNegInf(x) {
+					return tTrue
+				}
+				if f, ok := constantFloat(core.ConstVal(info, be.X)); ok && f >= 0 {
+					return tFalse
+				}
+			}
+		case token.LSS:
+			if isNegInf(x) && isPen(y) {
+				return tFalse
+			}
+			if isPen(x) && isNegInf(y) {
+				return tFalse
+			}
+		case token.GEQ:
+			if isNegInf(x) && isPen(y) {
+				return tTrue
+			}
+		}
+		return tUnknown
+	}
+	removes := func(st ast.Stmt) bool {
+		found := false
+		ast.Inspect(st, func(k ast.Node) bool {
+			if call, ok := k.(*ast.CallExpr); ok {
+				if se, ok := call.Fun.(*ast.SelectorExpr); ok && se.Sel.Name == "Remove" && strings.HasSuffix(types.ExprString(se.X), "activeNodes") {
+					found = true
+				}
+			}
+			return true
+		})
+		return found
+	}
+	bad := ""
+	var walk func(stmts []ast.Stmt, done bool, conds []string, k func(bool, []string))
+	walk = func(stmts []ast.Stmt, done bool, conds []string, k func(bool, []string)) {
+		if bad != "" {
+			return
+		}
+		if len(stmts) == 0 {
+			k(done, conds)
+			return
+		}
+		st, rest := stmts[0], stmts[1:]
+		next := func(d bool, cs []string) { walk(rest, d, cs, k) }
+		switch x := st.(type) {
+		case *ast.BranchStmt, *ast.ReturnStmt:
+			if !done {
+				bad = strings.Join(conds, " && ")
+			}
+			return
+		case *ast.BlockStmt:
+			walk(x.List, done, conds, next)
+			return
+		case *ast.IfStmt:
+			v := evalBool(info, x.Cond, env)
+			if v != tFalse {
+				walk(x.Body.List, done, append(append([]string{}, conds...), c.Src(x.Cond)), next)
+			}
+			if v != tTrue {
+				cs := append(append([]string{}, conds...), "!("+c.Src(x.Cond)+")")
+				switch e := x.Else.(type) {
+				case nil:
+					next(done, cs)
+				case *ast.BlockStmt:
+					walk(e.List, done, cs, next)
+				case *ast.IfStmt:
+					walk([]ast.Stmt{e}, done, cs, next)
+				}
+			}
+			return
+		}
+		if _, isIf := st.(*ast.IfStmt); !isIf && removes(st) {
+			done = true
+		}
+		walk(rest, done, conds, k)
+	}
+	walk(loop.Body.List, false, nil, func(done bool, cs []string) {
+		if !done && bad == "" {
+			bad = strings.Join(cs, " && ")
+		}
+	})
+	if bad == "" {
+		r.OK("E4.forced-break-deactivates", key, c.Pos(loop.Pos()), "")
+	} else {
+		r.Fail("E4.forced-break-deactivates", key, c.Pos(loop.Pos()), "at a forced break an active node can take the path `"+bad+"` on which it is not removed from the active list: it stays a candidate parent for breaks beyond the forced one")
+	}
+	r.Count("E4.forced-break-loops", 1)
+	r.Floor("E4.forced-break-loops", 1)
+}
+
+// E4NilBranchDeref: a pointer is not dereferenced in the branch taken when it is nil.
+func E4NilBranchDeref(c *core.Ctx, r *core.Report) {
+	r.Rule("E4.nil-branch-deref", "package canvas (contradiction rule): where an `if` condition has `X == nil` as the whole condition or as a disjunct (`X == nil || …`), the branch can be entered with X nil, so its body does not read a field of X or dereference it before X is assigned. The check `q == nil || len(q.d) < n` followed by `q.d = …` states a belief (q may be nil) that the next line contradicts: Path.CopyTo(nil) panicked")
+	p := c.MustPkg("")
+	info := p.TypesInfo
+	n := 0
+	for _, fd := range core.AllFuncDecls(p) {
+		if fd.Body == nil || strings.HasSuffix(c.Fset.Position(fd.Pos()).Filename, "_test.go") {
+			continue
+		}
+		fname := "canvas." + core.FuncName(fd)
+		ord := 0
+		ast.Inspect(fd.Body, func(m ast.Node) bool {
+			is, ok := m.(*ast.IfStmt)
+			if !ok {
+				return true
+			}
+			// disjuncts
+			var disj []ast.Expr
+			var split func(e ast.Expr)
+			split = func(e ast.Expr) {
+				e = core.Unparen(e)
+				if be, ok := e.(*ast.BinaryExpr); ok && be.Op == token.LOR {
+					split(be.X)
+					split(be.Y)
+					return
+				}
+				disj = append(disj, e)
+			}
+			split(is.Cond)
+			for _, d := range disj {
+				be, ok := d.(*ast.BinaryExpr)
+				if !ok || be.Op != token.EQL {
+					continue
+				}
+				var x ast.Expr
+				if id, ok := core.Unparen(be.Y).(*ast.Ident); ok && id.Name == "nil" {
+					x = be.X
+				} else if id, ok := core.Unparen(be.X).(*ast.Ident); ok && id.Name == "nil" {
+					x = be.Y
+				}
+				xid, ok := core.Unparen(x).(*ast.Ident)
+				if !ok || x == nil {
+					continue
+				}
+				o := core.ObjOf(info, xid)
+				if o == nil {
+					continue
+				}
+				if _, isPtr := o.Type().Underlying().(*types.Pointer); !isPtr {
+					continue
+				}
+				n++
+				ord++
+				key := fmt.Sprintf("%s|nil test #%d of `%s`: not dereferenced in the nil branch", fname, ord, xid.Name)
+				// walk the body statements in order until X is assigned
+				bad := token.NoPos
+				assigned := false
+				for _, st := range is.Body.List {
+					if assigned || bad != token.NoPos {
+						break
+					}
+					ast.Inspect(st, func(k ast.Node) bool {
+						if assigned || bad != token.NoPos {
+							return false
+						}
+						switch y := k.(type) {
+						case *ast.FuncLit:
+							return false
+						case *ast.AssignStmt:
+							// RHS first
+							for _, rh := range y.Rhs {
+								ast.Inspect(rh, func(q ast.Node) bool {
+									if se, ok := q.(*ast.SelectorExpr); ok {
+										if id, ok := core.Unparen(se.X).(*ast.Ident); ok && core.ObjOf(info, id) == o {
+											if s := info.Selections[se]; s != nil && s.Kind() == types.FieldVal {
+												bad = se.Pos()
+											}
+										}
+									}
+									return true
+								})
+							}
+							for _, l := range y.Lhs {
+								if id, ok := l.(*ast.Ident); ok && core.ObjOf(info, id) == o {
+									assigned = true
+									return false
+								}
+								if se, ok := core.Unparen(l).(*ast.SelectorExpr); ok {
+									if id, ok := core.Unparen(se.X).(*ast.Ident); ok && core.ObjOf(info, id) == o && bad == token.NoPos {
+										bad = se.Pos()
+									}
+								}
+							}
+							return false
+						case *ast.SelectorExpr:
+							if id, ok := core.Unparen(y.X).(*ast.Ident); ok && core.ObjOf(info, id) == o {
+								if s := info.Selections[y]; s != nil && s.Kind() == types.FieldVal {
+									bad = y.Pos()
+								}
+							}
+						case *ast.StarExpr:
+							if id, ok := core.Unparen(y.X).(*ast.Ident); ok && core.ObjOf(info, id) == o {
+								bad = y.Pos()
+							}
+						}
+						return true
+					})
+				}
+				if bad != token.NoPos {
+					r.Fail("E4.nil-branch-deref", key, c.Pos(bad), fmt.Sprintf("`%s` is dereferenced in the branch guarded by `%s`, which is entered when it is nil", xid.Name, c.Src(is.Cond)))
+				} else {
+					r.OK("E4.nil-branch-deref", key, c.Pos(is.Pos()), "")
+				}
+			}
+			return true
+		})
+	}
+	r.Count("E4.nil-tests", n)
+	r.Floor("E4.nil-tests", 12)
+}
+
+// E4RadiiNonzero: the radii handed to ellipseRadiiCorrection are tested against zero first.
+func E4RadiiNonzero(c *core.Ctx, r *core.Report) {
+	r.Rule("E4.radii-nonzero", "ellipseRadiiCorrection divides by both radii. Every call therefore passes radii for which the function has tested `Equal(R, 0.0)` (or compared R with zero) on the very expression it passes: either the call sits under the negated test, or an earlier statement leaves the function when the test holds. ArcTo does; Path.offset passed `rx ∓ w/2` untested, which is zero when the arc's radius equals half the stroke width: the factor came back +Inf, defeated the 'radii are large enough' test and the outer offset arc was shrunk")
+	p := c.MustPkg("")
+	info := p.TypesInfo
+	n := 0
+	for _, fd := range core.AllFuncDecls(p) {
+		if fd.Body == nil || strings.HasSuffix(c.Fset.Position(fd.Pos()).Filename, "_test.go") {
+			continue
+		}
+		fname := "canvas." + core.FuncName(fd)
+		ord := 0
+		var stack []ast.Node
+		ast.Inspect(fd.Body, func(m ast.Node) bool {
+			if m == nil {
+				stack = stack[:len(stack)-1]
+				return true
+			}
+			stack = append(stack, m)
+			call, ok := m.(*ast.CallExpr)
+			if !ok {
+				return true
+			}
+			f := core.CalleeOf(info, call)
+			if f == nil || f.Name() != "ellipseRadiiCorrection" || f.Pkg() != p.Types || len(call.Args) < 3 {
+				return true
+			}
+			ord++
+			for k := 1; k <= 2; k++ {
+				n++
+				arg := squash(types.ExprString(core.Unparen(call.Args[k])))
+				key := fmt.Sprintf("%s|radii correction #%d: radius argument %d is tested against zero", fname, ord, k)
+				zeroTest := func(cond ast.Expr) (mentions bool, negated bool) {
+					ast.Inspect(cond, func(q ast.Node) bool {
+						switch x := q.(type) {
+						case *ast.UnaryExpr:
+							if x.Op == token.NOT {
+								if ce, ok := core.Unparen(x.X).(*ast.CallExpr); ok && len(ce.Args) == 2 {
+									if cf := core.CalleeOf(info, ce); cf != nil && cf.Name() == "Equal" && squash(types.ExprString(core.Unparen(ce.Args[0]))) == arg {
+										if v, ok := constantFloat(core.ConstVal(info, ce.Args[1])); ok && v == 0 {
+											mentions, negated = true, true
+										}
+									}
+								}
+							}
+						case *ast.CallExpr:
+							if len(x.Args) == 2 {
+								if cf := core.CalleeOf(info, x); cf != nil && cf.Name() == "Equal" && squash(types.ExprString(core.Unparen(x.Args[0]))) == arg {
+									if v, ok := constantFloat(core.ConstVal(info, x.Args[1])); ok && v == 0 {
+										mentions = true
+									}
+								}
+							}
+						}
+						return true
+					})
+					return
+				}
+				ok := false
+				// (a) enclosing if with a negated zero test
+				for i := len(stack) - 2; i >= 0; i-- {
+					if is, isIf := stack[i].(*ast.IfStmt); isIf && is.Body.Pos() <= call.Pos() && call.End() <= is.Body.End() {
+						if m2, neg := zeroTest(is.Cond); m2 && neg {
+							ok = true
+						}
+					}
+				}
+				// (b) an earlier early exit on the positive zero test (top-level statements of the function)
+				for _, st := range fd.Body.List {
+					if st.Pos() > call.Pos() {
+						break
+					}
+					if is, isIf := st.(*ast.IfStmt); isIf {
+						if m2, _ := zeroTest(is.Cond); m2 && len(is.Body.List) > 0 {
+							if _, isRet := is.Body.List[len(is.Body.List)-1].(*ast.ReturnStmt); isRet {
+								ok = true
+							}
+						}
+					}
+				}
+				if ok {
+					r.OK("E4.radii-nonzero", key, c.Pos(call.Pos()), "")
+				} else {
+					r.Fail("E4.radii-nonzero", key, c.Pos(call.Pos()), fmt.Sprintf("the radius `%s` is passed to ellipseRadiiCorrection, which divides by it, without a test against zero of that expression: for a zero radius the factor is +Inf or NaN", c.Src(call.Args[k])))
+				}
+			}
+			return true
+		})
+	}
+	r.Count("E4.radii-arguments", n)
+	r.Floor("E4.radii-arguments", 6)
 }
